@@ -285,6 +285,15 @@ class UTPM(Ring, RawAlgorithmsMixIn):
         # overwritten cells out first, clear them, then accumulate
         tmp = ybar[sl].copy()
         ybar[sl].data[...] = 0.
+        if isinstance(xbar, cls) and tmp.data.shape != xbar.data.shape:
+            # the assigned value was broadcast into y[sl]: its adjoint is the sum over the broadcast axes
+            t = tmp.data
+            while t.ndim > xbar.data.ndim:
+                t = t.sum(axis=2)
+            for ax in range(2, t.ndim):
+                if xbar.data.shape[ax] == 1 and t.shape[ax] != 1:
+                    t = t.sum(axis=ax, keepdims=True)
+            tmp = cls(t)
         xbar += tmp
         # print 'funcargs=',funcargs
         # print y[funcargs[0]]
